@@ -41,7 +41,14 @@ EXPLANATION = (
     'of states comes from all assigned frames, not from the pair list, and a '
     'method that hands self.<setting> to assigns_to_counts stores no '
     'data-derived value into that setting (a second fit counts with the '
-    'constructor settings); an early exit of the helper with an empty pair '
+    'constructor settings), and every setting handed to assigns_to_counts '
+    'is read at call time from the public attribute named after the '
+    'constructor parameter - not from a private copy of the constructor '
+    'arguments that nothing refreshes, not from another setting, not from a '
+    'constant; rows that reach the helper through a mapping must have '
+    'distinct keys (a key computed from the row\'s value, or the group key '
+    'of itertools.groupby over rows not sorted by that key, lets a later '
+    'trajectory replace an earlier one); an early exit of the helper with an empty pair '
     'list is taken only when len(row) <= lag (linear decision over n, L); '
     '(D7) the functions on the counting path (and the methods of msm.py that '
     'count) keep no state that outlives a call: no memoising decorator, no '
@@ -1064,6 +1071,169 @@ class _Counts:
                     return True
         return False
 
+    # -- rows that travel through a mapping -----------------------------------
+    def _single_def(self, e):
+        """The defining expression of a Name with exactly one reaching plain
+        assignment (temporaries first); `e` itself otherwise."""
+        fi = self.fi
+        e = _orig(fi, e)
+        if isinstance(e, ast.Name) and isinstance(e.ctx, ast.Load):
+            al = _alts(fi, e, depth=0)
+            if len(al) == 1 and al[0][1] is not None and not isinstance(al[0][0], str) and al[0][0] is not None:
+                return al[0][1]
+        return e
+
+    def _mapping_entries(self, d):
+        """[(loop target, loop iterable, key expression, site)] for every way
+        an entry gets into the mapping `d` by plain binding (a later entry
+        with an equal key REPLACES the earlier one):
+            {K: V for T in X}                 dict((K, V) for T in X)
+            D = {} ... for T in X: D[K] = V
+        None when the mapping is (also) filled by something the rule does not
+        read - D[k].append(..), D.setdefault(..), D.update(..), D[k] += .. -
+        which may well accumulate the rows of equal keys."""
+        mod, fn, fi = self.mod, self.fn, self.fi
+        v = self._single_def(d)
+        if isinstance(v, ast.Call) and call_name(v) in ('dict', 'collections.OrderedDict', 'OrderedDict') and len(v.args) == 1 \
+                and not v.keywords and isinstance(v.args[0], (ast.GeneratorExp, ast.ListComp)):
+            c = v.args[0]
+            if len(c.generators) == 1 and not c.generators[0].ifs and isinstance(c.elt, ast.Tuple) and len(c.elt.elts) == 2:
+                return [(c.generators[0].target, c.generators[0].iter, c.elt.elts[0], c)]
+            return None
+        if isinstance(v, ast.DictComp):
+            if len(v.generators) == 1 and not v.generators[0].ifs:
+                return [(v.generators[0].target, v.generators[0].iter, v.key, v)]
+            return None
+        empty = (isinstance(v, ast.Dict) and not v.keys) or (
+            isinstance(v, ast.Call) and call_name(v) in ('dict', 'collections.OrderedDict', 'OrderedDict') and not v.args and not v.keywords)
+        d0 = d
+        while isinstance(d0, ast.Name) and fi.temp_value(d0) is not None and isinstance(fi.temp_value(d0), ast.Name):
+            d0 = fi.temp_value(d0)
+        if not empty or not isinstance(d0, ast.Name):
+            return None
+        name, out = d0.id, []
+        for x in ast.walk(fn):
+            if not (isinstance(x, ast.Name) and x.id == name):
+                continue
+            p = mod.parent.get(x)
+            if isinstance(x.ctx, ast.Store):
+                continue
+            if isinstance(p, ast.Subscript) and p.value is x and isinstance(p.ctx, ast.Store):
+                s = mod.parent.get(p)
+                lp = _loop_of(mod, s, fn)
+                if not (isinstance(s, ast.Assign) and len(s.targets) == 1 and s.targets[0] is p and isinstance(lp, ast.For)
+                        and any(s is b for b in lp.body)):
+                    return None
+                out.append((lp.target, lp.iter, p.slice, s))
+                continue
+            if isinstance(p, ast.Attribute) and p.value is x and p.attr in ('values', 'items', 'keys') \
+                    and isinstance(mod.parent.get(p), ast.Call):
+                continue        # a read of the finished mapping
+            if isinstance(p, ast.Call) and call_name(p) in ('len', 'list', 'sorted', 'iter') and x in p.args:
+                continue
+            return None         # D[k] loads (append/extend on the entry), setdefault, update, aliasing ...
+        return out or None
+
+    _VALUE_FUNCS = {'np', 'numpy', 'len', 'int', 'tuple', 'str', 'float', 'max', 'min', 'sum', 'hash', 'bytes', 'repr',
+                    'frozenset', 'set', 'sorted', 'bool', 'abs', 'round', 'type'}
+
+    def _value_key(self, key, names):
+        """`key` is a pure function of the VALUES of `names` alone (rows of
+        equal value - or merely of equal length, first state, ... - get equal
+        keys); id()/enumeration indices are not."""
+        ids = {x.id for x in walk_expr(key) if isinstance(x, ast.Name)}
+        if not (ids & set(names)) or not ids <= set(names) | self._VALUE_FUNCS:
+            return False
+        return not any(isinstance(x, ast.Call) and call_name(x) == 'id' for x in walk_expr(key)) and is_pure(key)
+
+    def keyed_rows(self, it):
+        """The rows the helper is applied to are read out of a mapping
+        (`D.values()`, `D.items()`, `D[k] for k in D`).  Necessary for "every
+        trajectory contributes its pairs exactly once" (additivity, invariance
+        under reordering): no two trajectories may be bound to the same key,
+        because a plain binding keeps only the LAST entry of a key.
+          * key = pure function of the row's value (len(a), a[0], tuple(a) ..):
+            two trajectories of equal key exist inside the quantifier (any set
+            of trajectories: equal lengths, even equal contents) -> 'collide';
+          * key = the group key of itertools.groupby(X, key=F): groupby merges
+            only ADJACENT elements of equal key, so keys repeat unless X is
+            sorted by F; X in the caller's order -> 'collide';
+            X = sorted(.., key=F) -> 'distinct';
+          * enumeration index / id(row) -> 'distinct';
+          * anything else -> 'unknown'.
+        Returns None (not a mapping view) or (kind, construct, detail)."""
+        fi = self.fi
+        e = _orig(fi, it)
+        while isinstance(e, ast.Call) and call_name(e) in ('list', 'tuple', 'iter') and len(e.args) == 1 and not e.keywords:
+            e = _orig(fi, e.args[0])
+        if not (isinstance(e, ast.Call) and isinstance(e.func, ast.Attribute) and e.func.attr in ('values', 'items')
+                and not e.args and not e.keywords):
+            return None
+        d = e.func.value
+        entries = self._mapping_entries(d)
+        if not entries:
+            return None
+        kinds = []
+        for target, x, key, site in entries:
+            if self.ps[0] not in fi.derives_from(x)[0]:
+                return None
+            xo = _orig(fi, x)
+            cn = (call_name(xo) or '') if isinstance(xo, ast.Call) else ''
+            construct = 'rows handed to %s are the entries of a mapping keyed by `%s` (for %s in %s)' % (
+                HELPER, u(key)[:40], u(target)[:40], fi.xu(x)[:80])
+            if cn.split('.')[-1] == 'groupby' and isinstance(target, (ast.Tuple, ast.List)) and len(target.elts) == 2 \
+                    and isinstance(target.elts[0], ast.Name):
+                kf = arg_or_kw(xo, 1, 'key')
+                src = arg_or_kw(xo, 0, 'iterable')
+                if kf is None or src is None or not self._value_key(key, [target.elts[0].id]):
+                    kinds.append(('unknown', construct, ''))
+                    continue
+                so = _orig(fi, src)
+                while isinstance(so, ast.Call) and call_name(so) in ('list', 'tuple', 'iter') and len(so.args) == 1 and not so.keywords:
+                    so = _orig(fi, so.args[0])
+                if isinstance(so, ast.Call) and call_name(so) == 'sorted' and kwarg(so, 'key') is not None \
+                        and fi.xu(kwarg(so, 'key')) == fi.xu(kf):
+                    kinds.append(('distinct', construct, ''))
+                    continue
+                ordering = {'sorted', 'sort', 'argsort', 'lexsort', 'unique', 'searchsorted'}
+                reorders = any((call_name(c) or '').split('.')[-1] in ordering for c in calls_in(self.fn))
+                if reorders or fi.derives_from(src)[1] & ordering or not (self.is_raw(src) or self.rows_kind(src) != 'far'):
+                    kinds.append(('unknown', construct, ''))
+                    continue
+                kinds.append(('collide', construct,
+                              'itertools.groupby merges only ADJACENT trajectories of equal key `%s`, and the trajectories arrive in the '
+                              'caller\'s order (nothing sorts them by that key): a later run with the same key is bound to the same '
+                              'mapping key and REPLACES the earlier run, whose lagged pairs are then missing from the counts (e.g. '
+                              'lengths 5, 7, 5) - the total is below sum max(0, n - lag) and the matrix depends on the order of the '
+                              'trajectories' % u(kf)[:40]))
+                continue
+            # one entry per row
+            rowvars, index = [], None
+            if isinstance(target, ast.Name) and (self.is_raw(x) or self.rows_kind(x) != 'far'):
+                rowvars = [target.id]
+            elif isinstance(target, (ast.Tuple, ast.List)) and cn == 'enumerate' and len(target.elts) == 2 and xo.args and \
+                    all(isinstance(t, ast.Name) for t in target.elts) and (self.is_raw(xo.args[0]) or self.rows_kind(xo.args[0]) != 'far'):
+                index, rowvars = target.elts[0].id, [target.elts[1].id]
+            if not rowvars:
+                kinds.append(('unknown', construct, ''))
+            elif index is not None and isinstance(key, ast.Name) and key.id == index:
+                kinds.append(('distinct', construct, ''))
+            elif self._value_key(fi.expand(key), rowvars):
+                kinds.append(('collide', construct,
+                              'the key `%s` is a function of the trajectory\'s value: two trajectories with equal key (the quantifier '
+                              'admits any set of trajectories - equal lengths, equal contents) are bound to the same mapping key and the '
+                              'later one REPLACES the earlier one, whose lagged pairs are then missing from the counts (not additive over '
+                              'trajectories)' % u(key)[:40]))
+            else:
+                kinds.append(('unknown', construct, ''))
+        for k in kinds:
+            if k[0] == 'collide':
+                return k
+        for k in kinds:
+            if k[0] == 'unknown':
+                return k
+        return kinds[0]
+
     def per_row(self, hc):
         ck, mod, fi = self.ck, self.mod, self.fi
         assigns, lag, nst, sw = self.ps[:4]
@@ -1130,6 +1300,11 @@ class _Counts:
             else:
                 ck.missing('C03.D3.per-row', 'the trajectory handed to the helper is not recognised as the iteration '
                            'variable of a loop over the trajectories: %s' % u(hc)[:160])
+            return
+        kr = self.keyed_rows(it)
+        if kr is not None and kr[0] == 'collide':
+            ck.bad('C03.D3.every-row', mod, hc, COUNTS, kr[1],
+                   'every trajectory must contribute its lagged pairs exactly once: ' + kr[2])
             return
         sel = _selection(_orig(fi, it))
         if sel is not None and (self.rows_kind(sel[0]) != 'far' or self.ps[0] in fi.derives_from(sel[0])[0]):
@@ -1978,6 +2153,171 @@ def d5_settings(ck):
     ck.floor(rule, n, 1, 'settings of an object handed to %s in %s' % (COUNTS, MSM_PY))
 
 
+def _self_reads(e, me):
+    return [x for x in walk_expr(e) if isinstance(x, ast.Attribute) and isinstance(x.value, ast.Name) and x.value.id == me
+            and isinstance(x.ctx, ast.Load)]
+
+
+def _external_base(mod, b):
+    """The base class expression names something imported from outside the
+    package (absolute import) or `object`."""
+    root = b
+    while isinstance(root, ast.Attribute):
+        root = root.value
+    if not isinstance(root, ast.Name):
+        return False
+    if root.id == 'object' and b is root:
+        return True
+    for s in getattr(mod.tree, 'body', []):
+        if isinstance(s, ast.ImportFrom) and s.level == 0 and not (s.module or '').startswith('enspara'):
+            if any((a.asname or a.name) == root.id for a in s.names):
+                return True
+        if isinstance(s, ast.Import) and any((a.asname or a.name.split('.')[0]) == root.id and not a.name.startswith('enspara') for a in s.names):
+            return True
+    return False
+
+
+def d5_settings_live(ck):
+    """`obj.fit(a).tcounts_` is the count matrix for the settings the object
+    HAS when it is fitted: the public attributes named after the constructor
+    parameters are the settings (they are what `config`, `get_params`,
+    `set_params`/`clone` and plain attribute assignment in a lag-time scan read
+    and write).  Necessary: every setting handed to assigns_to_counts is read,
+    at the time of the call, from such a public attribute (or from a property
+    computed from them) - not from a private copy of the constructor arguments
+    that nothing refreshes when the public attribute changes, not from the
+    public attribute of ANOTHER setting, and not from a constant."""
+    rule = 'C03.D5.settings-live'
+    try:
+        mod = ck.repo.mod(MSM_PY)
+        cps = params(ck.repo.mod(TM).func(COUNTS))
+    except Exception:
+        ck.missing(rule, 'module %s / signature of %s' % (MSM_PY, COUNTS))
+        return
+    n = 0
+    for qual, fn in sorted(mod.functions.items()):
+        calls = [c for c in calls_in(fn) if (call_name(c) or '').split('.')[-1] == COUNTS]
+        ps = params(fn)
+        decos = {u(d).split('.')[-1] for d in fn.decorator_list}
+        if not calls or '.' not in qual or not ps or decos & {'staticmethod', 'classmethod'}:
+            continue
+        cname = qual.rsplit('.', 1)[0]
+        cls, init = mod.classes.get(cname), mod.functions.get(cname + '.__init__')
+        if cls is None or init is None or len(params(init)) < 1:
+            continue
+        me, fi = ps[0], finfo(mod, fn)
+        ime, ips = params(init)[0], params(init)[1:]
+        ifi = finfo(mod, init)
+        if _rebound(fi, me) or _rebound(ifi, ime):
+            ck.missing(rule, '`%s` is rebound in %s / its constructor' % (me, qual))
+            continue
+        members = {q.rsplit('.', 1)[1]: f for q, f in mod.functions.items() if q.rsplit('.', 1)[0] == cname and '.' in q}
+        init_stores = _self_attr_stores(init, ime)
+        public = {a for s, a, v in init_stores if a in ips}
+        all_stores = {}
+        for mname, f in members.items():
+            mp = params(f)
+            if mp and not {u(d).split('.')[-1] for d in f.decorator_list} & {'staticmethod', 'classmethod'}:
+                for s, a, v in _self_attr_stores(f, mp[0]):
+                    all_stores.setdefault(a, []).append((mname, f, s, v))
+        refreshers = sorted(m for m in members if m in ('__setattr__', 'set_params', '__getattr__', '__getattribute__') or m in public)
+        foreign = [u(b) for b in cls.bases if not _external_base(mod, b)]
+
+        def decide(role, a, c, owner_fi, owner_me, depth=2):
+            """One setting handed to the counting: `a` in the role `role`
+            (None: a ** bundle of several roles)."""
+            nonlocal n
+            ex = owner_fi.expand(a)
+            if role is None and isinstance(ex, ast.Dict) and all(k is not None and isinstance(const_value(k), str) for k in ex.keys):
+                for k, v in zip(ex.keys, ex.values):
+                    decide(const_value(k), v, c, owner_fi, owner_me, depth)
+                return
+            n += 1
+            what = '%s of %s in %s' % (role or '** settings', COUNTS, qual)
+            reads = _self_reads(ex, owner_me)
+            if not reads:
+                if role in public and isinstance(ex, ast.Constant):
+                    ck.bad(rule, mod, c, qual, '%s is a constant' % what,
+                           'the call counts with the constant %s whatever `%s.%s` says: the counts are not those of the '
+                           'model\'s %s' % (u(ex), me, role, role))
+                elif role in public:
+                    ck.missing(rule, '%s does not read `%s.%s`: %s' % (what, me, role, u(ex)[:80]))
+                else:
+                    ck.ok(rule, mod, c, what, 'no setting of the object with that name; the value does not come from the object')
+                return
+            for r in reads:
+                x = r.attr
+                if x in public and x not in members:
+                    if role is not None and role in public and x != role and u(ex) == '%s.%s' % (owner_me, x):
+                        ck.bad(rule, mod, c, qual, '%s is read from %s.%s' % (what, me, x),
+                               'the %s of the counting must be the model\'s `%s`, the call hands it `%s.%s` (the setting of '
+                               'another option)' % (role, role, me, x))
+                    else:
+                        ck.ok(rule, mod, c, '%s <- %s.%s' % (what, me, x),
+                              'read at call time from the public attribute named after the constructor parameter')
+                    continue
+                if x in members:
+                    f = members[x]
+                    rets = [rt.value for rt in returns_of(f) if rt.value is not None]
+                    if 'property' in {u(d).split('.')[-1] for d in f.decorator_list} and len(rets) == 1 and depth > 0 and params(f):
+                        decide(role, rets[0], c, finfo(mod, f), params(f)[0], depth - 1)
+                    else:
+                        ck.missing(rule, '%s is read from the member `%s` of %s, which the rule does not see through' % (what, x, cname))
+                    continue
+                sts = all_stores.get(x, [])
+                elsewhere = [t for t in sts if t[1] is not fn]
+                if not elsewhere:
+                    if sts:
+                        continue        # bound by the counting method itself: C03.D5.settings-stable looks at those stores
+                    ck.missing(rule, '%s is read from `%s.%s`, which no method of %s binds' % (what, me, x, cname))
+                    continue
+                if any(t[0] != '__init__' for t in elsewhere) or refreshers or foreign:
+                    ck.missing(rule, '%s is read from `%s.%s`, bound outside the constructor or possibly refreshed (%s): '
+                               'not decided whether it follows the public settings' % (
+                                   what, me, x, ', '.join([t[0] for t in elsewhere if t[0] != '__init__'] + refreshers + foreign)[:120]))
+                    continue
+                copied, names = set(), []
+                for mname, f, s, v in elsewhere:
+                    if v is None:
+                        copied = None
+                        break
+                    vx = ifi.expand(v)
+                    copied |= {p for p in ifi.derives_from(v)[0] if p in ips}
+                    if isinstance(vx, ast.Dict):
+                        names += [const_value(k) for k in vx.keys if k is not None and isinstance(const_value(k), str)]
+                if copied is None:
+                    ck.missing(rule, '%s is read from `%s.%s`, bound by an unpacking in the constructor' % (what, me, x))
+                    continue
+                dup = sorted(copied & public)
+                if dup:
+                    s = elsewhere[0][2]
+                    ck.bad(rule, mod, s, qual,
+                           '%s.%s (a copy of the constructor argument(s) %s) is handed to %s as %s' % (
+                               me, x, ', '.join(dup), COUNTS, role or ('** ' + ' / '.join(sorted(set(names))) if names else '** settings')),
+                           '`%s`: the constructor keeps %s twice - in the public attribute(s) %s (what config / get_params report '
+                           'and what set_params, clone().set_params(..) and `m.%s = k` in a scan over one object change) and in the '
+                           'private `%s.%s`, which only the constructor binds; %s counts with the private copy, so after a change '
+                           'of the public setting `fit(a).tcounts_` is still the matrix of the constructor-time value (wrong lag / '
+                           'window mode / number of states for the model as configured)' % (
+                               u(s)[:100].replace('\n', ' '), ', '.join(dup), ', '.join('%s.%s' % (me, p) for p in dup), dup[0], me, x, qual))
+                else:
+                    ck.ok(rule, mod, c, '%s <- %s.%s' % (what, me, x),
+                          'the only place the object keeps that constructor argument / a value that is no constructor setting')
+
+        for c in calls:
+            ck.analysed(mod, fn)
+            for i, a in enumerate(c.args):
+                if isinstance(a, ast.Starred):
+                    ck.missing(rule, 'positional * arguments of %s in %s' % (COUNTS, qual))
+                    break
+                if 1 <= i < len(cps):
+                    decide(cps[i], a, c, fi, me)
+            for k in c.keywords:
+                if k.arg != cps[0]:
+                    decide(k.arg, k.value, c, fi, me)
+    ck.floor(rule, n, 1, 'settings handed to %s by a method in %s' % (COUNTS, MSM_PY))
+
+
 # ---------------------------------------------------------------------------
 # D7: the count matrix is a function of the arguments of THIS call (no state that outlives a call)
 #
@@ -2803,7 +3143,7 @@ def check(ck):
     ck.floor('C03.D1.slices', n or 0, 2, '(sliding / strided, return) pairs examined in %s' % HELPER)
     d_counts(ck)
     d5_settings(ck)
-    for rule, f in (('C03.D8.raises', d8_raises), ('C03.D9.trim-gate', d9_trim_gate)):
+    for rule, f in (('C03.D5.settings-live', d5_settings_live), ('C03.D8.raises', d8_raises), ('C03.D9.trim-gate', d9_trim_gate)):
         try:
             f(ck)
         except (AttributeError, KeyError, IndexError, TypeError, ValueError, RecursionError) as e:
